@@ -29,6 +29,7 @@ func checkC17(c *Ctx) {
 	ruleFrameUnderLocks(c, dv)
 	ruleLedOffset(c, dv)
 	ruleLayerOrder(c, dv)
+	ruleNoNarrowTransposition(c, dv)
 	c.importRules(transportRules, []string{"R15.3"}, "R17.8") // MIDI-input messages reach every connected device (fan-out ids, delivery loop)
 	c.MinCount("R17.7", 8)
 	c.MinCount("R17.1", 4)
@@ -36,7 +37,8 @@ func checkC17(c *Ctx) {
 	c.MinCount("R17.3", 1)
 	c.MinCount("R17.5", 5)
 	c.MinCount("R17.6", 1)
-	c.DecidedClause("MIDI-input tracking lights a key only for a Note On with non-zero velocity and clears it for Note Off and for Note On with velocity 0, under the tracker mutex; no LED slot is written through a failed map lookup; after the refresh loop every LED is set to red and the frame is sent; panic replaces the external highlight map; the whole frame is computed and sent inside one critical section of the event mutex (external notes under their own mutex); the LED transposition offset is the same affine int form 12*octave+semitone as in NoteOn")
+	c.MinCount("R17.10", 1)
+	c.DecidedClause("MIDI-input tracking lights a key only for a Note On with non-zero velocity and clears it for Note Off and for Note On with velocity 0, under the tracker mutex; no LED slot is written through a failed map lookup; after the refresh loop every LED is set to red and the frame is sent; panic replaces the external highlight map; the whole frame is computed and sent inside one critical section of the event mutex (external notes under their own mutex); the LED transposition offset is the same affine int form 12*octave+semitone as in NoteOn, and no value computed from it is narrowed to 8 bits unless guards bound it to the narrow type's range")
 	c.UndecidedClause("the colour function itself (which colour each LED shows for each reachable state and LED layout): a 170-line value-level function of the device state; deciding it means evaluating it, which is testing, not static analysis")
 	c.Assumption("len(dev.Colors) == len(dev.LEDs) (OpenRGB protocol)")
 }
@@ -1151,4 +1153,57 @@ func fieldLoadOfAny(v ssa.Value) ssa.Instruction {
 		}
 	}
 	return nil
+}
+
+// ruleNoNarrowTransposition: R17.10. The frame maps sounding pitches back to mapping notes (pitch - offset) and mapping notes
+// to pitches (note + offset). The offset 12*octave+semitone is an unbounded int (octave steps have no limit), so a value
+// computed from it may be converted to an 8-bit type only where dominating conditions bound it to that type's range:
+// otherwise the conversion wraps and a pitch that is on no key aliases the note of another key (which then shows a
+// highlight instead of the unavailable colour).
+func ruleNoNarrowTransposition(c *Ctx, dv *dev) {
+	root := dv.fn["handleOpenrgb"]
+	pf := newParserFacts(c)
+	if !c.Require(pf.err == nil, "R17.10", "anchor:facts", fmt.Sprint(pf.err)) {
+		return
+	}
+	var fns []*ssa.Function
+	var collect func(f *ssa.Function)
+	collect = func(f *ssa.Function) {
+		fns = append(fns, f)
+		for _, af := range f.AnonFuncs {
+			collect(af)
+		}
+	}
+	collect(root)
+	for h := range dv.newHelpers() {
+		collect(h)
+	}
+	ord := map[string]int{}
+	for _, fn := range fns {
+		vw := pf.view(fn)
+		for _, b := range fn.Blocks {
+			for _, in := range b.Instrs {
+				cv, ok := in.(*ssa.Convert)
+				if !ok || !isIntegerType(cv.Type()) || !isIntegerType(cv.X.Type()) {
+					continue
+				}
+				lo, hi := typeRangeOf(cv.Type())
+				if lo == hi || hi > 255 {
+					continue // not an 8-bit target
+				}
+				if slo, shi := typeRangeOf(cv.X.Type()); slo != shi && slo >= lo && shi <= hi {
+					continue // widening or same width
+				}
+				t := vw.Term(cv.X)
+				if !t.LoadsField(dv.fields["octave"]) && !t.LoadsField(dv.fields["semitone"]) {
+					continue
+				}
+				ord[shortFn(fn)]++
+				key := fmt.Sprintf("%s/narrowed-transposition#%d", shortFn(fn), ord[shortFn(fn)])
+				okR, why := pf.proveRange(cv.X, b, lo, hi, 0)
+				c.Check(okR, "R17.10", key, c.P.Pos(cv.Pos()), "a value computed from the transposition is converted to 8 bits only inside its range: "+why,
+					fmt.Sprintf("`%s` is computed from octave/semitone (an unbounded int) and converted to an 8-bit type without being bounded to %d..%d (%s): from |offset| >= 129 on it wraps, and a pitch that is on no key lights the key whose note it aliases", t, lo, hi, why))
+			}
+		}
+	}
 }
